@@ -1,6 +1,6 @@
 (* C05 - -optimize changes layout only and leaves no redundant jumps or labels. *)
 From Coq Require Import List ZArith Bool.
-From Pory Require Import Lexer Ast Emitter EmitProps.
+From Pory Require Import Lexer Ast Emitter Sem2 SemTgt Tr Check C01Proofs EmitProps RenderSim RenderCheck C01Final.
 Import ListNotations.
 
 (* (c1) a jump that ends a chunk never targets the chunk rendered next (it is elided instead), for any chunk order *)
@@ -17,3 +17,24 @@ Theorem sublabels_referenced :
       In (lbl name i) (targets_of is) \/ (exists c, In c fs /\ In (lbl name i, false) (user_labels (cstmts c))).
 Proof. exact EmitProps.sublabels_referenced. Qed.
 Print Assumptions sublabels_referenced.
+
+(* (a) the optimized and the unoptimized output of a script behave identically from its entry (validated form, see C01) *)
+Theorem optimize_equiv_checked :
+  forall (St : Type) (exec : cmd -> St -> stepres St) (flag_set trainer_beaten : text -> St -> bool)
+         (cmp_var cmp_var_value : text -> text -> St -> comparison) (case_matches : text -> text -> St -> bool)
+         (mp : option text) (tl : list text) (name : text) (glob : bool) (body : list stmt)
+         (w : wst) (code0 code1 : list instr) (find_label : text -> option sstate) (fuel : nat),
+    emit_graph body = Ok w ->
+    emit_script mp tl name glob false body = Ok code0 -> emit_script mp tl name glob true body = Ok code1 ->
+    chk_block (finals w) (brk w) (org w) fuel body 0 (-1) = true ->
+    wf_render mp name (finals w) (order_of false (finals w)) code0 = true ->
+    wf_render mp name (finals w) (order_of true (finals w)) code1 = true ->
+    scoped None None body ->
+    label_lookup_agrees St exec flag_set trainer_beaten cmp_var cmp_var_value case_matches (finals w) (brk w) (org w) find_label ->
+    label_lookup_scoped find_label ->
+    (forall m s, exists m', res_le (run (@tfinal) (tstep St exec flag_set trainer_beaten cmp_var cmp_var_value case_matches code0) m (jump code0 name) s)
+                                  (run (@tfinal) (tstep St exec flag_set trainer_beaten cmp_var cmp_var_value case_matches code1) m' (jump code1 name) s)) /\
+    (forall m s, exists m', res_le (run (@tfinal) (tstep St exec flag_set trainer_beaten cmp_var cmp_var_value case_matches code1) m (jump code1 name) s)
+                                  (run (@tfinal) (tstep St exec flag_set trainer_beaten cmp_var cmp_var_value case_matches code0) m' (jump code0 name) s)).
+Proof. exact C01Final.optimize_equiv_checked. Qed.
+Print Assumptions optimize_equiv_checked.
